@@ -231,10 +231,19 @@ class KernelS(KernelX):
         branches = []
         for want, facts, body in ((True, c.tf, s.body), (False, c.ff, s.orelse)):
             alts = [facts]
-            if self.split_dnf and (facts is None or isinstance(s.test, ast.BoolOp)):
+            if (self.split_dnf and (facts is None or isinstance(s.test, ast.BoolOp))) or (facts is None and want and isinstance(s.test, ast.BoolOp) and isinstance(s.test.op, ast.Or)):
                 d = self.dnf(s.test, st, want)
                 if d is not None and 1 <= len(d) <= 4:
-                    alts = d
+                    # make the alternatives pairwise disjoint where an earlier one is a single literal:
+                    # (A or B) = A  |  (not A and B); otherwise the same execution would be analysed on two paths
+                    dis = []
+                    for j, alt in enumerate(d):
+                        extra = []
+                        for prev in d[:j]:
+                            if len(prev) == 1:
+                                extra.append(-prev[0] - 1)
+                        dis.append(list(alt) + extra)
+                    alts = dis
             res_all = []
             any_live = False
             other = c.ff if want else c.tf
